@@ -1,0 +1,49 @@
+// Copyright 2020-2025 Buf Technologies, Inc.
+//
+// Licensed under the Apache License, Version 2.0 (the "License");
+// you may not use this file except in compliance with the License.
+// You may obtain a copy of the License at
+//
+//      http://www.apache.org/licenses/LICENSE-2.0
+//
+// Unless required by applicable law or agreed to in writing, software
+// distributed under the License is distributed on an "AS IS" BASIS,
+// WITHOUT WARRANTIES OR CONDITIONS OF ANY KIND, either express or implied.
+// See the License for the specific language governing permissions and
+// limitations under the License.
+
+//go:build verif
+
+package normalpath
+
+// Contracts for the gocv verifier (see /verif/DESIGN.md). Comment-only.
+//
+// C11: the keys of m that equal path or are one of its ancestors (path-wise), as a new map.
+// Documented: "returns the paths in m that are equal to, or contain path, in a new map. If the map is empty, returns nil."
+//@ func MapAllEqualOrContainingPathMap(m, path, pathType) (r)
+//@   property C11
+//@   use valid-nonempty
+//@   reveal ancOrSelf
+//@   requires pathType == Relative && validRel(path) && (forall k string :: k in m ==> validRel(k))
+//@   ensures empty-nil: len(m) == 0 ==> r == nil && len(r) == 0
+//@   ensures only-ancestors: forall k string :: k in r ==> k in m && ancOrSelf(k, path)
+//@   ensures all-ancestors: forall k string :: k in m && ancOrSelf(k, path) ==> k in r
+//@   ensures input-untouched: forall k string :: (k in m) <==> (k in old(m))
+//@   loop 0 invariant forall k string :: k in n ==> k in m && ancOrSelf(k, path)
+//@   loop 0 invariant forall k string :: k in m && ancOrSelf(k, path) && (k == "." || k in $visited) ==> k in n
+//@   loop 1 invariant validRel(curPath)
+//@   loop 1 invariant curPath == path || hasPrefix(path, curPath + "/") || curPath == "."
+//@   loop 1 invariant ancOrSelf(potentialMatch, path) && potentialMatch != "." ==> curPath != "." && (potentialMatch == curPath || hasPrefix(curPath, potentialMatch + "/"))
+//@   loop 1 invariant forall k string :: k in n ==> k in m && ancOrSelf(k, path)
+//@   loop 1 invariant forall k string :: k in m && ancOrSelf(k, path) && (k == "." || k in $visited0) ==> k in n
+//@   canary ensures len(r) == 0
+//
+// A nil error means: every path is a valid, normalized relative path, and no path occurs twice.
+//@ func ValidatePathsNormalizedValidatedUnique(paths) (err)
+//@   property C11
+//@   ensures all-valid: err == nil ==> (forall j int :: 0 <= j && j < len(paths) ==> validRel(paths[j]) && Normalize(paths[j]) == paths[j] && paths[j] != "")
+//@   ensures unique: err == nil ==> (forall a int, b int :: 0 <= a && a < b && b < len(paths) ==> paths[a] != paths[b])
+//@   loop 0 invariant pathMap != nil && (forall j int :: 0 <= j && j < $i ==> validRel(paths[j]) && Normalize(paths[j]) == paths[j] && paths[j] != "" && paths[j] in pathMap)
+//@   loop 0 invariant forall k string :: k in pathMap ==> (exists j int :: 0 <= j && j < $i && paths[j] == k)
+//@   loop 0 invariant forall a int, b int :: 0 <= a && a < b && b < $i ==> paths[a] != paths[b]
+//@   canary ensures err != nil
